@@ -760,4 +760,79 @@ func genC12Workspaces(c *Ctx, div int, emit func(files []c12File, ups []c12File)
 		}
 		genCase(names, func(i, j int) bool { return adjm[i*(n+2)+j] }, dangling, 1+r.IntN(maxUps))
 	}
+	// 2b. two or three included files declare different formats for one commodity; the root drops
+	// one include and adds it back (possibly in another position), or only reorders its include
+	// directives: a fresh workspace must report the same formats as the updated one
+	for i := 0; i < c.N(80, 1500)/div; i++ {
+		n := 3 + r.IntN(2)
+		names, mode := c12Names(r, n)
+		c.Count(mode)
+		c.Count(fmt.Sprintf("files.%d", n))
+		c.Count("formats.conflict")
+		dir := c12FakeDir
+		cm := pick(r, c12DeclComm)
+		fperm := r.Perm(len(c12Formats))
+		decl := func(k int) string {
+			f := c12Formats[fperm[k%len(fperm)]]
+			if r.IntN(2) == 0 {
+				return "commodity " + f + " " + cm + "\n"
+			}
+			return "commodity " + cm + "\n  format " + f + " " + cm + "\n"
+		}
+		rootText := func(ts []string) string {
+			var parts []string
+			for _, t := range ts {
+				parts = append(parts, "include "+c12IncludePath(r, dir, names[0], t)+"\n")
+			}
+			if r.IntN(3) == 0 {
+				parts = append(parts, decl(0))
+			}
+			return strings.Join(parts, "\n")
+		}
+		others := append([]string{}, names[1:]...)
+		r.Shuffle(len(others), func(a, b int) { others[a], others[b] = others[b], others[a] })
+		files := []c12File{{Name: names[0], Text: rootText(others)}}
+		for k, m := range names[1:] {
+			text := decl(k + 1)
+			if k == 0 && n == 4 && r.IntN(2) == 0 {
+				// a chain below the first included file
+				text = "include " + c12IncludePath(r, dir, m, names[3]) + "\n\n" + text
+			}
+			if r.IntN(2) == 0 {
+				text += "\n" + c12Tx(r)
+			}
+			files = append(files, c12File{Name: m, Text: text})
+		}
+		var ups []c12File
+		cur := others
+		for k := 0; k < 1+r.IntN(maxUps-1); k++ {
+			switch r.IntN(4) {
+			case 0: // reorder only
+				nx := append([]string{}, cur...)
+				r.Shuffle(len(nx), func(a, b int) { nx[a], nx[b] = nx[b], nx[a] })
+				cur = nx
+				c.Count("formats.reorder")
+			case 1: // everything back, in a new order
+				nx := append([]string{}, names[1:]...)
+				r.Shuffle(len(nx), func(a, b int) { nx[a], nx[b] = nx[b], nx[a] })
+				cur = nx
+				c.Count("formats.readd")
+			default: // drop one include if there is one, else add one back
+				if len(cur) > 0 {
+					d := r.IntN(len(cur))
+					cur = append(append([]string{}, cur[:d]...), cur[d+1:]...)
+					c.Count("formats.drop")
+				} else {
+					cur = []string{pick(r, names[1:])}
+					c.Count("formats.readd")
+				}
+			}
+			ups = append(ups, c12File{Name: names[0], Text: rootText(cur)})
+		}
+		// end on the full include list so that every declaration counts
+		nx := append([]string{}, names[1:]...)
+		r.Shuffle(len(nx), func(a, b int) { nx[a], nx[b] = nx[b], nx[a] })
+		ups = append(ups, c12File{Name: names[0], Text: rootText(nx)})
+		emit(files, ups)
+	}
 }
